@@ -112,6 +112,24 @@ pub fn regressions(ctx: &mut Ctx) {
         cases.push(("dwarf", "die_ranges low_pc + high_pc overflows", s.clone(), p));
         cases.push(("conv.dwarf_from", "die_ranges low_pc + high_pc overflows", s, p));
     }
+    // skip_attributes: huge block length followed by a fixed-size attribute
+    {
+        let mut ab = Asm::new(true);
+        ab.uleb(1).uleb(gimli::DW_TAG_compile_unit.0 as u64).u8(0);
+        ab.uleb(gimli::DW_AT_location.0 as u64).uleb(gimli::DW_FORM_exprloc.0 as u64);
+        ab.uleb(gimli::DW_AT_byte_size.0 as u64).uleb(gimli::DW_FORM_data4.0 as u64);
+        ab.uleb(0).uleb(0).uleb(0);
+        let mut a = Asm::new(true);
+        let m = a.begin_length(false);
+        a.u16(4).u32(0).u8(8);
+        a.u8(1).uleb(u64::MAX).u32(7);
+        a.end_length(m);
+        let mut s = Secs::default();
+        s.set(SectionId::DebugAbbrev, ab.buf);
+        s.set(SectionId::DebugInfo, a.buf);
+        cases.push(("units", "skip_attributes: block length u64::MAX + fixed attribute", s.clone(), p));
+        cases.push(("conv.stepwise", "skip_attributes: block length u64::MAX + fixed attribute", s, p));
+    }
     // CFI conversion: alignment factors 0 / 256 / huge, offsets beyond i32, huge advance
     for (code, data) in [(0u64, 0i64), (256, -129), (1 << 40, i64::MIN), (1, 1)] {
         let mut a = Asm::new(true);
